@@ -7,7 +7,7 @@ from rules import tf, simdsign
 
 def run(ctx):
     fx = ctx.facts("default")
-    fixtures.run(ctx, ['tf', 'simdsign'])
+    fixtures.run(ctx, ['tf', 'simdsign', 'lanes'])
     tf.run(ctx, fx)
     ctx.floor("R-TF.tf_fns", 100)
     ctx.floor("R-TF.sites", 100)
@@ -15,6 +15,8 @@ def run(ctx):
     # byte comparison kernels: the order of two bytes is never decided by a signed lane comparison
     simdsign.run(ctx, fx)
     ctx.floor("R-SIGNED.kernels", 8)
+    simdsign.byte_kernels(ctx, fx)
+    ctx.floor("R-LANES.functions", 60)
     return dict(
         level_note="decides the dispatch clause of C14 (feature-gated kernels are entered only under an implying "
                    "runtime check; a portable path exists) and one necessary condition of the compare clause (no unbiased "
